@@ -207,10 +207,15 @@ def loss_case(rnd, ncalls, timers, explicit, introspected, dup_cb, local=False):
         dcan = conn.callRemote('/o', 'Given_up', interface='org.e.I', destination='org.e', timeout=50)
         dcan.addErrback(lambda f: None)
         dcan.cancel()
+    # a call issued through callRemoteMessage whose caller has not attached anything to the Deferred yet (it will, later)
+    bare = None
+    if rnd.random() < 0.5:
+        bare = conn.callRemoteMessage(message.MethodCallMessage('/o', 'Bare', interface='org.e.I', destination='org.e'), 7 if (timers and timers[0]) else None)
+        what += ', one call without callbacks attached yet'
     proxies = []
     cbs = {}
     second = []
-    iface = interface.DBusInterface('org.verif.P', interface.Method('M'), noRegister=True)
+    iface = interface.DBusInterface('org.verif.P', interface.Method('M'), interface.Signal('Changed', 's'), noRegister=True)
     for k in range(explicit):
         got = []
         conn.getRemoteObject('org.e', '/p', iface).addBoth(got.append)
@@ -238,6 +243,20 @@ def loss_case(rnd, ncalls, timers, explicit, introspected, dup_cb, local=False):
             got[0].notifyOnDisconnect(first)
             got[0].notifyOnDisconnect(lambda o, r, name=name: ran.append((name + '_second', r)))
             second.append(name + '_second')
+    subscribed = 0
+    for name, got in proxies:
+        if name.startswith('explicit') and rnd.random() < 0.6:
+            # the proxy also holds a signal subscription, completed (the bus has answered AddMatch) when the connection is lost
+            sub = []
+            before = set(conn._pendingCalls)
+            got[0].notifyOnSignal('Changed', lambda *a: None).addBoth(sub.append)
+            for sr in set(conn._pendingCalls) - before:
+                conn.dataReceived(message.MethodReturnMessage(sr).rawMessage)
+            if len(sub) != 1 or isinstance(sub[0], failure.Failure):
+                return '%s: signal subscription of %s not completed: %r' % (what, name, sub)
+            subscribed += 1
+    if subscribed:
+        what += ', %d proxies with a completed signal subscription' % subscribed
     if len(proxies) >= 2 and rnd.random() < 0.5:
         # a callback that asks for another proxy while the loss is dispatched: the proxies not visited yet are still told
         late = []
@@ -281,6 +300,11 @@ def loss_case(rnd, ncalls, timers, explicit, introspected, dup_cb, local=False):
             continue
         if len(out) != 1 or out[0] is not reason:
             return '%s: outstanding call %d completed with %r (expected one failure with the loss reason)' % (what, i, out)
+    if bare is not None:
+        seen = []
+        bare.addBoth(seen.append)            # attached only now: the outcome is there already
+        if len(seen) != 1 or seen[0] is not reason:
+            return '%s: the call whose Deferred had no callbacks yet at the loss completed with %r (expected the loss reason)' % (what, seen)
     if clock.getDelayedCalls():
         return '%s: %d timers still armed after the loss' % (what, len(clock.getDelayedCalls()))
     if len(conn._pendingCalls) != len(retried):
